@@ -4,9 +4,9 @@ CONSTANTS
   K = 2
   NF = 2
   NG = 1
-  PF = "p1y"
+  PF = "p1f"
   TF = "t12"
-  PG = "p1y"
+  PG = "p1f"
   TG = "t12"
   LAYOUTS = {"dfs"}
   EMIT = TRUE
